@@ -56,6 +56,52 @@ def gen_hp(rng, tier):
     return cases
 
 
+# ------------------------------------------------------------------ model-independent oracle on the log
+
+
+def post_hp(log_path, case):
+    """`garbage stays bounded`, checked directly on the log (independent of the Lean model, so it
+    still speaks after a correspondence divergence): after every retire / explicit scan the
+    harness logs `note retired_count <rec> <n>`; n must be below the record's current
+    retire_threshold (tracked from the st/fadd events on thr<rec>), and after an operation that
+    scanned, 2*n must not exceed it.  In the single-threaded drain phase (all slots released, then
+    every record scanned) no garbage may be left."""
+    thr = {}
+    scanned = {}
+    drain = False
+    try:
+        with open(log_path) as f:
+            for line in f:
+                p = line.split()
+                if len(p) < 5 or p[0].startswith("#"):
+                    continue
+                kind, cell = p[3], p[4]
+                if drain:
+                    # every slot has been released: the final scan of each record must free everything
+                    if kind == "note" and cell == "retired_count" and int(p[6]) != 0:
+                        return "oracle garbage-left record %s keeps %s retired nodes although no slot is in use" % (p[5], p[6])
+                    continue
+                if kind == "st" and cell.startswith("thr"):
+                    thr[int(cell[3:])] = int(p[5])
+                elif kind == "fadd" and cell.startswith("thr"):
+                    thr[int(cell[3:])] = int(p[5]) + int(p[6])
+                elif kind == "note" and cell == "actas":
+                    drain = True
+                elif kind == "w" and cell.startswith("rc") and p[5] == "0":
+                    scanned[int(cell[2:])] = True
+                elif kind == "note" and cell == "retired_count":
+                    r, n = int(p[5]), int(p[6])
+                    if r in thr:
+                        if n >= thr[r]:
+                            return "oracle garbage-bound retired_count %d >= retire_threshold %d of record %d" % (n, thr[r], r)
+                        if scanned.get(r) and 2 * n > thr[r]:
+                            return "oracle garbage-bound after a scan 2*retired_count %d > retire_threshold %d of record %d" % (n, thr[r], r)
+                    scanned[r] = False
+    except (OSError, ValueError, IndexError):
+        return None
+    return None
+
+
 # ------------------------------------------------------------------ binary_search differential
 
 
@@ -93,7 +139,7 @@ def gen_bs(rng, tier):
 SPEC = {
     "C14": {
         "parts": [
-            {"name": "hp", "harness": "hazard", "model": "Hp", "gen": gen_hp},
+            {"name": "hp", "harness": "hazard", "model": "Hp", "gen": gen_hp, "post": post_hp},
             {"name": "bsearch", "harness": "hazard", "model": "Hp", "gen": gen_bs},
         ],
         "trusted_base": [
